@@ -44,9 +44,10 @@ def _unify_attr_types(model):
     return model
 
 
-def check(case):
+def check(case_):
     from flamapy.metamodels.fm_metamodel.transformations import ClaferWriter
     out = []
+    case = case_["model"] if "selections" in case_ else case_
     fm = build.build(case)
     text = lib(lambda: ClaferWriter(None, fm).transform())
     if isinstance(text, Raised):
@@ -97,9 +98,14 @@ def check(case):
     if undeclared:
         return out
     # (i) instances == configurations
-    valid = set(semantics.configs(case))
+    if "selections" in case_:
+        sel_list = [frozenset(x) for x in case_["selections"]]
+        valid = {x for x in sel_list if semantics.valid(case, x)}
+    else:
+        sel_list = None
+        valid = set(semantics.configs(case))
     wrong_accept = wrong_reject = None
-    for sel in all_selections(nms):
+    for sel in (sel_list if sel_list is not None else all_selections(nms)):
         a = interp.clafer_accepts(doc, sel)
         if a and sel not in valid and wrong_accept is None:
             wrong_accept = sorted(sel)
@@ -117,6 +123,8 @@ def _needs_quotes(n):
 
 
 def nontrivial(case):
+    if "selections" in case:
+        return True
     for r, _ in build.iter_rels(case["root"]):
         n = len(r["children"])
         if n >= 2 and (r["min"], r["max"]) not in ((1, 1), (1, n)):
@@ -128,6 +136,9 @@ def nontrivial(case):
 
 
 def classes(case):
+    if "selections" in case:
+        r = next(r for r, _ in build.iter_rels(case["model"]["root"]) if len(r["children"]) >= 10)
+        return {"wide-group", "bounds:text-order-differs" if str(r["min"]) > str(r["max"]) else "bounds:plain"}
     out = _bool.structure_classes(case)
     for f, _ in build.iter_feats(case["root"]):
         if f["attrs"]:
@@ -145,6 +156,8 @@ def classes(case):
 
 
 SUBS = [
+    Sub("wide-groups", check, gen=lambda tier: _bool.wide_group_cases(max_members=24, group_alone=True), nontrivial=nontrivial, classes=classes,
+        n={"quick": 30, "thorough": 800}, essential=["bounds:text-order-differs"]),
     Sub("constraint-shapes", check, enum=_bool.enum_constraint_shapes, nontrivial=nontrivial, classes=classes,
         exhaustive=False),
     Sub("export", check, gen=lambda tier: S.model_specs(PROFILE, 1, 9).map(_unify_attr_types), nontrivial=nontrivial,
